@@ -20,9 +20,22 @@ NOT_APPLICABLE = {
 
 # claimed by DESIGN.md but whose check is not built yet (kept out of `checks` until it runs clean end to end)
 PENDING = {p: "in scope for deterministic simulation (DESIGN.md §5) but the check is not built yet in this revision; not claimed"
-           for p in ["C07"]}
+           for p in []}
 
 PROPS = {
+    "C07": {
+        "level": "exploration",
+        "level_text": "an alias monitor deep-copies every message that crosses the API boundary (write arguments and results, read results, old/new values of every received event, seeds) at that instant and re-compares it after every later operation and at the end of the run, while other parties (consumers scheduled at their own pace, earlier callers) keep holding them; plus caller-mutation after a write and stored-state comparison around read-only calls; on the core resources, on the parent/metadata/enter-leave models and, through a reflective driver, on every discovered trait model",
+        "level_note": TRUST + "; the reflective driver synthesises arguments by type and skips (and lists in the evidence) methods whose parameters it cannot build; a model method that panics on a synthesised argument is ignored here",
+        "technique": "deterministic simulation (writer and holder/consumer tasks, seeded schedules) with an alias monitor (snapshot-at-crossing, re-compare after every step) and a caller-mutation fault",
+        "rule": RULE_SCHED + " For this property a run with at least two operations is also non-trivial (earlier results are held across later operations).",
+        "scenarios": [
+            {"name": "alias-res", "quick": 30000, "thorough": 3000000, "thorough_time": 200, "extra": ["-sim.only=message-changed,read-changed-store,caller-mutation-visible"]},
+            {"name": "alias-models", "quick": 40000, "thorough": 3000000, "thorough_time": 300, "extra": ["-sim.only=message-changed,read-changed-store,caller-mutation-visible"]},
+        ],
+        "require_hits": ["caller-mutate"],
+        "assumptions": ["wrapped RPC paths are deliberately not used here: wrap copies messages and would hide model-level aliasing"],
+    },
     "C14": {
         "level": "exploration",
         "level_text": "every model server / memory device discovered from the source tree that exposes a single-register Get/Update/Pull triple is put behind wrapper -> router -> wrapper (all real code, free-running between the two wrappers) and driven with protoreflect-built random updates, update masks (valid, invalid, nil) and read masks, with 0-2 open streams whose readers keep up; relational register laws at true quiescence after every RPC; measured coverage of the discovered triples",
